@@ -121,6 +121,42 @@ def C1():
                                mk.synset(P + 'ss2', 'n', 'i1', definitions=['c alpha'])])
 
 
+def XT(lexid, version, mark):
+    """a small extension of a:1 for the 'twin' universe: x:1, x:2 (two versions of one extension) and z:1 (a fork
+    of it) use the SAME ids for what they add - also for the form they add to the base entry a-e1 - and differ in
+    the texts (written form, tag, pronunciation, definition).  Whatever one of them declares must never show up
+    under, or disappear because of, another."""
+    B, P = 'a-', 'x-'
+    return mk.lexicon(lexid, version, 'en', f'Twin extension {lexid}:{version}', extends={'id': 'a', 'version': '1'},
+                      entries=[{'id': B + 'e1', 'external': True,
+                                'forms': [{'writtenForm': 'alpha' + mark, 'id': P + 'f9',
+                                           'tags': [{'text': 'tag-' + mark, 'category': 'xc'}],
+                                           'pronunciations': [{'text': 'pron-' + mark}]}],
+                                'senses': [mk.sense(P + 's1', B + 'ss3')]},
+                               mk.entry(P + 'e1', 'gamma', 'n',
+                                        forms=[{'writtenForm': 'gammas', 'id': P + 'f1',
+                                                'tags': [{'text': 'pl-' + mark, 'category': 'num'}]}],
+                                        senses=[mk.sense(P + 's2', P + 'ss1')])],
+                      synsets=[{'id': B + 'ss1', 'external': True,
+                                'definitions': [{'text': 'definition by ' + mark, 'meta': None}]},
+                               {'id': B + 'ss3', 'external': True},
+                               mk.synset(P + 'ss1', 'n', 'i4', definitions=['gamma ' + mark],
+                                         relations=[mk.rel(B + 'ss1', 'hypernym')])])
+
+
+def resources_twin():
+    return {
+        'A1': mk.resource([A1()], V), 'A2': mk.resource([A2()], V),
+        'T1': mk.resource([XT('x', '1', 'xone')], V), 'T2': mk.resource([XT('x', '2', 'xtwo')], V),
+        'Z1': mk.resource([XT('z', '1', 'zed')], V),
+        'TZ': mk.resource([XT('x', '2', 'xtwo'), XT('z', '1', 'zed')], V),     # two siblings in one file
+    }
+
+
+FORMS_TWIN = ['alpha', 'alphas', 'alphaxone', 'alphaxtwo', 'alphazed', 'gamma', 'gammas', 'beta', 'nothing']
+SPEC_TWIN = {'A1': 'a:1', 'A2': 'a:2', 'T1': 'x:1', 'T2': 'x:2', 'Z1': 'z:1'}
+
+
 ILI_ROWS = [('i1', 'active', 'concept one'), ('i2', 'deprecated', ''),
             ('i4', 'provisional', 'concept four'), ('i9', 'active', 'unused')]
 
